@@ -15,20 +15,21 @@ open SecsModel SecsModel.Model.Rx SecsModel.Model.Wedge SecsModel.Proofs.HsmsWed
 
 /-! ## the framing loop and the close sequence -/
 
-/-- **Never wedged** (partial: histories in which a connection is established only after the previous close sequence has finished —
-`Reachable`; the passive TCP transport can violate that, see `overlapping_connect_kills_new_connection`).  For every such history — any byte stream, cut into any segments (`chunk c` for arbitrary `c`: every cut offset, inside the
+/-- **Never wedged.**  `Reachable` = histories in which a connection is established only after the previous close sequence has finished
+(`connect` needs `tcp = done`); the in-memory connection guarantees that by construction and the TCP transport by
+`connect_follows_teardown` below.  For every such history — any byte stream, cut into any segments (`chunk c` for arbitrary `c`: every cut offset, inside the
 length field, header or body), any number of connections, the close sequence started at any moment, any interleaving of the three threads,
 any block contents (`disp reply` for both values: in every session state a request may or may not be answered), any result of every
 `send_data` (`prx ok` for both values): the receiver thread is never inside a blocking read, and whenever the close sequence has begun and
 not finished some thread of the endpoint can take a step. -/
-theorem never_wedged_partial (s : St) (h : Reachable s) : s.prx ≠ .blockedRead ∧ wedged .current s = false :=
+theorem never_wedged (s : St) (h : Reachable s) : s.prx ≠ .blockedRead ∧ wedged .current s = false :=
   ⟨(inv_reachable s h).noBlocked, not_wedged_of_inv s (inv_reachable s h)⟩
 
-/-- **Close completes within a step bound under weak fairness** (partial: as above).  From any reachable state in which the close sequence has begun, *every*
+/-- **Close completes within a step bound under weak fairness.**  From any reachable state in which the close sequence has begun, *every*
 maximal run of the endpoint's own threads (a run that ends where no thread can take a step — which is where a weakly fair scheduler ends
 up) has at most `mu s` steps and ends with the close sequence finished: connection thread done, NOT CONNECTED, empty receive buffer,
 receiver thread exited. -/
-theorem close_completes_partial (s s' : St) (ls : List Lbl) (h : Reachable s) (hc : s.tcp.closing = true)
+theorem close_completes (s s' : St) (ls : List Lbl) (h : Reachable s) (hc : s.tcp.closing = true)
     (hl : ∀ l ∈ ls, l.internal = true) (hr : run .current s ls = some s') (hq : quiescent .current s' = true) :
     ls.length ≤ mu s ∧ s'.tcp = .done ∧ s'.conn = false ∧ s'.buf = [] ∧ s'.prx = .exited := by
   have hb := run_bound ls s s' hl hr
@@ -53,6 +54,15 @@ theorem close_completes_partial (s s' : St) (ls : List Lbl) (h : Reachable s) (h
     cases hp : s'.prx <;> simp_all [RxPc.alive]
   exact ⟨by omega, hdone, hcd.2, hbuf, hex⟩
 
+/-- **The premise of `Reachable` is discharged by the transport** (repair 814c548): the statement of `TcpConnection.__receiver_thread` that
+starts the next listen/connect cycle is its last one — the `_connection_closed()` hook, after the `on_disconnected` listeners and the reset
+of the flags —, both TCP classes implement that hook, and neither registers a listener of its own on `on_disconnected`.  So a `connect`
+follows a finished close sequence; the overlap of `overlapping_connect_kills_new_connection` needs one of these three to fail. -/
+theorem connect_follows_teardown :
+    Gen.HsmsGuards.receiverThreadLast = "self._connection_closed()"
+    ∧ Gen.HsmsGuards.ownDisconnectedListeners = []
+    ∧ Gen.HsmsGuards.closedHooks = ["TcpClientConnection", "TcpServerConnection"] := by decide
+
 /-- … and such maximal runs exist from every state (the bound is not vacuous): the endpoint's own threads can always run to quiescence -/
 theorem close_reachable (s : St) :
     ∃ ls s', (∀ l ∈ ls, l.internal = true) ∧ run .current s ls = some s' ∧ quiescent .current s' = true :=
@@ -62,7 +72,7 @@ theorem close_reachable (s : St) :
 def cut7 : Bytes := [0, 0, 0, 10, 0xFF, 0xFF, 0]
 def linktest : Bytes := [0, 0, 0, 10, 0xFF, 0xFF, 0, 0, 0, 5, 0, 0, 0, 7]
 
-/-- non-vacuity of `never_wedged_partial`/`close_completes_partial`: connect, 7 of 14 bytes of a Linktest.req, the receiver thread runs the loop and goes
+/-- non-vacuity of `never_wedged`/`close_completes`: connect, 7 of 14 bytes of a Linktest.req, the receiver thread runs the loop and goes
 back to waiting, the peer closes — a reachable state inside the close sequence; running the threads to quiescence finishes it in 14 steps -/
 def cutThenClose : List Lbl := [.connect, .chunk cut7, .prx true, .prx true, .prx true, .prx true, .prx true, .close]
 def closeSteps : List Lbl :=
@@ -163,8 +173,8 @@ theorem send_failure_strands_separate :
       ∧ s.tcp = .done ∧ s.conn = false ∧ s.buf = [] ∧ s.prx = .exited ∧ s.sendQ = [] ∧ quiescent .current s = true) := by
   refine ⟨⟨_, rfl, ?_⟩, ⟨_, rfl, ?_⟩⟩ <;> decide +kernel
 
-/-- **witness (OPEN finding `c09-relisten-overlaps-teardown`): a connection accepted while the previous one is still being torn down is
-killed by that teardown.**  The peer closes; the old connection's thread has sent its Separate.req and stands before
+/-- **regression witness (`c09-relisten-overlaps-teardown`, fixed 814c548): a connection accepted while the previous one is still being torn
+down is killed by that teardown.**  (Before the repair the listener was restarted by an `on_disconnected` listener that ran first.)  The peer closes; the old connection's thread has sent its Separate.req and stands before
 `HsmsProtocol._on_disconnected`; the restarted listener accepts a new peer and `_on_connected` runs (`connectEarly`); then the old thread
 goes on: `connection_state.disconnect()`, `ProtocolDispatcher.stop()` — which finds a live receiver thread (the NEW one), stops and joins
 it — `_receive_buffer.clear()`.  The endpoint's threads come to rest NOT CONNECTED with the receiver thread stopped, although nobody closed
